@@ -11,11 +11,12 @@ from pyvc.registry import Registry, Contract
 from pyvc.state import OutOfSubset
 
 REG = Registry()
+NODE_T = parse_type("Node")   # ('node',) in the default view, ('str',) in the string view
 
 # ---------------------------------------------------------------- datatypes mirroring the repo's frozen dataclasses
 FilterKind = vals.declare_enum("FilterKind", ["NAME", "PARENT", "REGEX"])
-vals.declare_data("Filter", [("kind", ("data", "FilterKind")), ("fid", ("node",))])
-vals.declare_data("Mod", [("group", ("bool",)), ("mid", ("node",))])
+vals.declare_data("Filter", [("kind", ("data", "FilterKind")), ("fid", NODE_T)])
+vals.declare_data("Mod", [("group", ("bool",)), ("mid", NODE_T)])
 DEP_T = ("tuple", (("data", "Mod"), ("data", "Mod")))
 vals.TYPE_ALIASES["Dep"] = DEP_T
 
@@ -37,7 +38,7 @@ def _mk_filter(kind):
         vs = list(args) + list(kwargs.values())
         if len(vs) != 1:
             raise OutOfSubset("filter constructor arity")
-        return [(st, V(("data", "Filter"), FILTER["ctor"](KIND[kind], to_term(vals.coerce(vs[0], ("node",))))))]
+        return [(st, V(("data", "Filter"), FILTER["ctor"](KIND[kind], to_term(vals.coerce(vs[0], NODE_T)))))]
     return ctor
 
 
@@ -46,7 +47,7 @@ def _mk_mod(group):
         vs = list(args) + list(kwargs.values())
         if len(vs) != 1:
             raise OutOfSubset("module constructor arity")
-        return [(st, V(("data", "Mod"), MOD["ctor"](z3.BoolVal(group), to_term(vals.coerce(vs[0], ("node",))))))]
+        return [(st, V(("data", "Mod"), MOD["ctor"](z3.BoolVal(group), to_term(vals.coerce(vs[0], NODE_T)))))]
     return ctor
 
 
@@ -59,7 +60,7 @@ REG.ctors["ModuleGroup"] = _mk_mod(True)
 
 @REG.specfun("fid")
 def _fid(eng, st, f):
-    return V(("node",), FILTER["fields"]["fid"][0](f.x))
+    return V(NODE_T, FILTER["fields"]["fid"][0](f.x))
 
 
 @REG.specfun("is_name")
@@ -79,7 +80,7 @@ def _is_regex(eng, st, f):
 
 @REG.specfun("mid")
 def _mid(eng, st, m):
-    return V(("node",), MOD["fields"]["mid"][0](m.x))
+    return V(NODE_T, MOD["fields"]["mid"][0](m.x))
 
 
 @REG.specfun("is_group")
